@@ -204,6 +204,39 @@ func c04Cover(c *ctx) {
 			c.r.Add(Finding{Kind: "violation", Check: "cover", Detail: fmt.Sprintf("%s satisfies %+v but block range [%d,%d] built from it is pruned", describeNum(nc), cond, mm.Min, mm.Max),
 				Replay: map[string]any{"kind": nc.Kind, "value": fmt.Sprint(nc.Go), "cond": cond, "min": mm.Min, "max": mm.Max}})
 		}
+		// a merge folds whole ranges of other blocks into this one, in either order: the other block's range may lie
+		// on one side, overlap, be enclosed by or enclose this block's range
+		if i%2 == 0 {
+			var other *bs.MinMaxIndex
+			for k := 1 + r.IntN(3); k > 0; k-- {
+				o := genNum(r)
+				if l2, h2, ok2 := bs.ConvertToMinMaxInt64(o.Go); ok2 {
+					if other == nil {
+						other = &bs.MinMaxIndex{Min: l2, Max: h2}
+					} else {
+						*other = bs.UpdateMinMaxIndex(*other, l2, h2)
+					}
+				}
+			}
+			if other == nil || r.Chance(0.3) {
+				// ranges straddling this block's own range on both sides by a little
+				other = &bs.MinMaxIndex{Min: mm.Min, Max: mm.Max}
+				if other.Min > math.MinInt64+9 {
+					other.Min -= int64(1 + r.IntN(9))
+				}
+				if other.Max < math.MaxInt64-9 {
+					other.Max += int64(1 + r.IntN(9))
+				}
+			}
+			for dir, merged := range []bs.MinMaxIndex{bs.UpdateMinMaxIndex(mm, other.Min, other.Max), bs.UpdateMinMaxIndex(*other, mm.Min, mm.Max)} {
+				c.r.Hit("cover.range-fold")
+				if !bs.EvaluateMinMaxCondition(merged, cond) || merged.Min > mm.Min || merged.Max < mm.Max {
+					c.r.Add(Finding{Kind: "violation", Check: "cover", Detail: fmt.Sprintf("%s satisfies %+v and its block's range is [%d,%d]; folded (order %d) with another block's range [%d,%d] as a merge does, the merged range [%d,%d] no longer covers it / is pruned", describeNum(nc), cond, mm.Min, mm.Max, dir, other.Min, other.Max, merged.Min, merged.Max),
+						Replay: map[string]any{"kind": nc.Kind, "value": fmt.Sprint(nc.Go), "cond": cond, "block": mm, "other": *other, "merged": merged, "order": dir}})
+					break
+				}
+			}
+		}
 	}
 	c.r.Note("cover monitor: %d of %d cases had a value satisfying the condition", sat, n)
 }
